@@ -9,13 +9,12 @@ EXPLANATION = ("io.*: file name, dataset keys (every key read is written uncondi
                "wave_data keys the cisd / ucisd classes consume all agree between pyscf_interface.prep_afqmc / write_dqmc and mpi_jax._prep_afqmc. io.nelec (proof): for all n_up >= n_dn >= 0 the "
                "reader recovers (n_up, n_dn) from the written (n_up + n_dn, n_up - n_dn). io.layout: h0, h1[p,q] (both spins), chol[g,p,q] come back entry by entry. io.trial.<option>: the reader's own wave_data statements give the rhf / uhf trial the leading n_s columns of spin block s, rdm1 their projectors, cisd / ucisd the equally named amplitude arrays, and a trial object of the option's class with the file's norb and electron counts. amp.ccsd / amp.uccsd: for ALL "
                "amplitude values the arrays written to amplitudes.npz define - in the CISD / UCISD conventions that C01 proves the overlap code to implement - exactly exp(T1+T2)|Phi0> truncated at "
-               "doubles, hence the trial's mixed energy at the reference determinant is the coupled-cluster energy (H connects |Phi0> to at most doubles). custom.*: the custom-integrals branch "
+               "doubles, hence the trial's mixed energy at the reference determinant is the coupled-cluster energy (H connects |Phi0> to at most doubles). trial.coeffs.<kind>: the statements that build trial_coeffs give, with qr under its contract, Q_s diag(sign diag R_s) built spin by spin from mo_coeff[s] (rhf: Q), and this array is what mo_coeff.npz receives - so the written trial keeps every leading-column span of basis^T S mo_coeff[s]. custom.*: the custom-integrals branch "
                "unpacks pyscf's 4-fold pair index into symmetric matrices and transforms h1 and every Cholesky matrix to the chosen basis (with C17: the written vectors reproduce the supplied "
                "two-electron integrals to chol_cut). Shape-bounded => 'other'.")
 LEVEL_TEXT = EXPLANATION
 LEVEL_NOTE = ("N/D (pyscf is external, no contracts on it): equality of the trial's variational energy with pyscf's SCF energy, of the exact ground state with pyscf's FCI energy, of the mixed energy with "
-              "pyscf's CC energy AS NUMBERS; generate_integrals / density fitting / chunked_cholesky; the frozen-core effective Hamiltonian (CASSCF.get_h1eff); that the QR-orthonormalised trial "
-              "coefficients span the occupied mean-field orbitals (needs the qr contract on a pyscf-dependent matrix); the options / observable files. Assumed: pyscf's documented amplitude "
+              "pyscf's CC energy AS NUMBERS; generate_integrals / density fitting / chunked_cholesky; the frozen-core effective Hamiltonian (CASSCF.get_h1eff); the options / observable files. Assumed: pyscf's documented amplitude "
               "conventions (stated in amp's contract), mol.spin = n_up - n_dn >= 0, CASSCF.nelecas = mol.nelec minus the frozen pairs.")
 TRUSTED_BASE = ["python ast of the real source files, re-read on every run; extraction by AST position: the `if isinstance(cc, UCCSD)` statement, the statements after `chol0 = modified_cholesky(...)` "
                 "in the `integrals is not None` branch, the `with h5py.File('FCIDUMP_chol')` block and the ham_data / nelec_sp assignments of the reader",
@@ -30,7 +29,7 @@ DROPPED = ["everything pyscf computes", "file system semantics (the HDF5 file is
 
 def tasks(tier):
     I = "contracts.iface"
-    t = [(I, "io_facts", {}), (I, "io_nelec", {}), (I, "io_trial", dict(norb=3, nelec_sp=[2, 1])), (I, "io_trial", dict(norb=4, nelec_sp=[3, 2])), (I, "io_layout", dict(nmo=3, nchol=2)), (I, "io_layout", dict(nmo=2, nchol=3)),
+    t = [(I, "trial_coeffs", dict(kind="uhf")), (I, "trial_coeffs", dict(kind="rohf")), (I, "trial_coeffs", dict(kind="rhf")), (I, "io_facts", {}), (I, "io_nelec", {}), (I, "io_trial", dict(norb=3, nelec_sp=[2, 1])), (I, "io_trial", dict(norb=4, nelec_sp=[3, 2])), (I, "io_layout", dict(nmo=3, nchol=2)), (I, "io_layout", dict(nmo=2, nchol=3)),
          (I, "amp", dict(kind="ccsd", norb=3, nocc=[1, 1])), (I, "amp", dict(kind="ccsd", norb=4, nocc=[2, 2])), (I, "amp", dict(kind="uccsd", norb=4, nocc=[2, 1])),
          (I, "amp", dict(kind="uccsd", norb=4, nocc=[2, 2])), (I, "amp", dict(kind="uccsd", norb=3, nocc=[1, 1])), (I, "amp_canary", {}),
          (I, "custom_unpack", dict(norb=3, nchol=2)), (I, "custom_unpack", dict(norb=2, nchol=1))]
